@@ -474,6 +474,10 @@ func BuildVideo(codec string, kind string, inBand int, tmpl int, marker []byte) 
 		return au
 	case "av1":
 		var tu [][]byte
+		if tmpl >= 1 {
+			// a temporal delimiter OBU first (what encoders emit at the start of every temporal unit)
+			tu = append(tu, []byte{2 << 3})
+		}
 		if kind == KindRA {
 			idx := inBand
 			if idx < 0 {
